@@ -9,9 +9,9 @@ PROP = {
             'reference on 1..10 nodes, weights up to 2^62/n, T up to 2^62. order: same siblings under 4 insertion orders, 5 evaluations over '
             'the Go map and 4 explicit visiting orders of iterationForRedistribution. tree: GroupQuotaManager histories on 1-3-level '
             'webhook-valid trees (UpdateQuota, OnPodAdd/Delete, UpdateClusterTotalResource, min/max/weight updates, lend toggles, '
-            'deletes), with and without scaleMinQuota and ElasticQuotaGuaranteeUsage; at every parent the flat oracle, plus an independent statement of '
+            're-parenting of leaves and subtrees via a changed parent label, deletes), with and without scaleMinQuota and ElasticQuotaGuaranteeUsage; at every parent the flat oracle, plus an independent statement of '
             'the min-scaling rule (children\'s mins sum above the parent\'s runtime -> floor(T*min_i/sum), else unchanged; float tolerance only beyond '
-            '2^53) compared with the AutoScaleMin the manager uses, and its consequence (scaled minimums fit -> children together get at most the parent\'s runtime). '
+            '2^53) compared with the AutoScaleMin the manager uses, and its consequences (scaled minimums fit -> children together get at most the parent\'s runtime; every child gets at least min(request, scaled minimum)). '
             'non-trivial (DESIGN.md): at least two borrowers (request > max(min,guarantee)) with positive weight, positive capacity '
             'left after the minimums, and a non-zero remainder in the first largest-remainder split (order unit: additionally a tie on '
             'the remainder; hamilton: residual > 0 with >= 2 weighted nodes). distinct = FNV-64 of the full input.',
